@@ -353,6 +353,11 @@ struct Ctx {
     env: Rc<Env>,
 }
 
+thread_local! {
+    /// how many caught-panic faults were executed (reach probe)
+    pub static CAUGHT_FIRED: std::cell::Cell<u64> = std::cell::Cell::new(0);
+}
+
 fn thread_body(env: Rc<Env>, tid: u8, initial_arcs: Vec<(usize, LArc)>) {
     let p = env.p.clone();
     let nm = p.n_mutex as usize;
@@ -373,10 +378,7 @@ fn thread_body(env: Rc<Env>, tid: u8, initial_arcs: Vec<(usize, LArc)>) {
     // take what this thread owns
     for c in 0..nc {
         let mine = p.threads[tid as usize].iter().any(|op| {
-            let mut o = op;
-            while let Op::If { then, .. } = o {
-                o = then;
-            }
+            let o = op.inner();
             matches!(o, Op::Recv { c: x } | Op::TryRecv { c: x } | Op::DropRx { c: x } if *x as usize == c)
         });
         if mine {
@@ -419,6 +421,18 @@ impl Drop for Ctx {
         }
         for t in self.tracks.drain(..).flatten() {
             std::mem::forget(t);
+        }
+        // a lock still held when the thread ends stays held (the program did not unlock it)
+        for g in self.mguards.drain(..).flatten() {
+            std::mem::forget(g);
+        }
+        for g in self.wguards.drain(..).flatten() {
+            std::mem::forget(g);
+        }
+        for gs in self.rguards.drain(..) {
+            for g in gs {
+                std::mem::forget(g);
+            }
         }
     }
 }
@@ -877,6 +891,30 @@ fn exec(cx: &mut Ctx, op: &Op, pc: usize) -> Option<u64> {
                 None
             }
         }
+        Op::Caught { ref op } => {
+            // FAULT: a panic raised and caught inside the model; `op` runs in a destructor while
+            // the panic unwinds
+            struct OnUnwind<'a> {
+                cx: &'a mut Ctx,
+                op: &'a Op,
+                pc: usize,
+                res: &'a mut Option<u64>,
+            }
+            impl Drop for OnUnwind<'_> {
+                fn drop(&mut self) {
+                    assert!(std::thread::panicking());
+                    *self.res = exec(self.cx, self.op, self.pc);
+                }
+            }
+            let mut res = None;
+            let r = std::panic::catch_unwind(std::panic::AssertUnwindSafe(|| {
+                let _g = OnUnwind { cx, op, pc, res: &mut res };
+                panic!("VERIF-INNER-PANIC");
+            }));
+            assert!(r.is_err());
+            CAUGHT_FIRED.with(|c| c.set(c.get() + 1));
+            res
+        }
         Op::Panic { marker } => {
             panic!("VERIF-PANIC-{}", marker);
         }
@@ -945,6 +983,8 @@ pub enum FailClass {
     BranchLimit,
     ThreadLimit,
     UserPanic(u32),
+    /// `lock()` of a lock poisoned by a guard dropped during a caught panic
+    Poison,
     LoomInternal,
 }
 
@@ -976,6 +1016,8 @@ pub fn classify_panic(msg: &str) -> FailClass {
         || msg.contains("assertion failed: threads.len() < self.max_threads")
     {
         FailClass::ThreadLimit
+    } else if msg.contains("PoisonError") || (msg.contains("RwLock state corrupt") && msg.contains("Poisoned")) {
+        FailClass::Poison
     } else {
         FailClass::LoomInternal
     }
